@@ -21,7 +21,7 @@ for b in raw["bodies"]:
         f = t.get("func", {})
         fn = f.get("fn") if f.get("k") == "const" else None
         kind = ADAPTORS.get(fn.get("def")) if fn else None
-        if kind and len(t.get("args", [])) == (3 if kind == "fold" else 2):
+        if kind and kind not in ("fold", "min", "max") and len(t.get("args", [])) == 2:  # folds are always read as loops
             a = t["args"][-1]
             if a.get("k") == "const" or (a.get("k") in ("move", "copy") and "closure@" in b["locals"][a["place"]["l"]]["ty"]):
                 p = strip_lt(b["path"]).split("::{closure")[0]
